@@ -91,4 +91,3 @@ func isWideInt(t types.Type) bool {
 	}
 	return false
 }
-
